@@ -208,6 +208,44 @@ def run(ctx):
             ctx.violation('audit-failed/fallback', 'status %r timed_out %r against a peer answering the protocol-mismatch text: %s' % (r['rc'], r['timed_out'], r['err']), d)
         if r['conns'] > 2:
             ctx.violation('fallback-conns-exceed', '%d connections to a peer that answers %r (then: %s); the SSH-1 retry is one more connection at most' % (r['conns'], mm.decode().strip(), c['second']), d)
+    # ---- the same bounds per target when the targets come from a file (-T), in standard and policy audits, with the rate check skipped or not ----
+    import os, tempfile
+    tcases = [{'opts': o, 'skip': sk, 'n': n} for o in ([], ['-P', 'Hardened OpenSSH Server v9.9 (version 1)']) for sk in (True, False) for n in (1, 2)]
+    if q:
+        tcases = [c for c in tcases if c['skip'] or c['n'] == 1]
+
+    def do_t(z, c):
+        srvs = [P.new_ssh2_server(dict(banner=b'SSH-2.0-OpenSSH_8.9', kex=['curve25519-sha256', 'diffie-hellman-group14-sha256'], key=['ssh-ed25519'], enc=['aes128-ctr'], mac=['hmac-sha2-256'],
+                                       hostkeys={b'ssh-ed25519': P.ed25519_blob()}), stall_limit=3.0) for _ in range(c['n'])]
+        fd, tf = tempfile.mkstemp(prefix='verif_c19_')
+        try:
+            os.write(fd, ''.join('127.0.0.1:%d\n' % sv.port for sv in srvs).encode()); os.close(fd)
+            res = z.run(['-n', '-t', '1'] + (['--skip-rate-test'] if c['skip'] else []) + c['opts'] + ['-T', tf], timeout=120)
+            time.sleep(0.15)
+            out = []
+            for sv in srvs:
+                ph = [sv.phases.get(i, 'rate') for i in range(sv.conns())]
+                out.append({'conns': sv.conns(), 'rate': sum(1 for p in ph if p in ('rate', 'silent-client')), 'first': ph.count('first'), 'hostkey': ph.count('hostkey')})
+            return {'rc': res['rc'], 'timed_out': res['timed_out'], 'targets': out, 'err': res['err'][-200:]}
+        finally:
+            for sv in srvs:
+                sv.shutdown()
+            os.unlink(tf)
+    with runner.Pool() as pool:
+        tres = pool.map(do_t, tcases)
+    for c, r in zip(tcases, tres):
+        d = {'op': 'cli-footprint-targets-file', 'opts': c['opts'], 'skip_rate_test': c['skip'], 'targets': r['targets'], 'rc': r['rc']}
+        if r['timed_out'] or r['rc'] not in (0, 1, 2, 3):
+            ctx.violation('audit-failed/targets-file', 'status %r timed_out %r: %s' % (r['rc'], r['timed_out'], r['err']), d)
+            continue
+        for t in r['targets']:
+            nontriv.add(('targets-file', bool(c['opts']), c['skip'], t['conns']))
+            if t['first'] != 1 or t['hostkey'] > 1:
+                ctx.violation('targets-file/probe-conns', 'a target of a -T run saw %d handshake and %d host-key probe connections (one host-key type advertised)' % (t['first'], t['hostkey']), d)
+            if c['skip'] and t['rate'] > 0:
+                ctx.violation('rate-conns-when-skipped', '%d rate-check connections to a target of a -T run although --skip-rate-test was given' % t['rate'], d)
+            if not c['skip'] and t['rate'] > 38 + 3:
+                ctx.violation('rate-conns-exceed', '%d rate-check connections to a target of a -T run (cap is 38)' % t['rate'], d)
     ctx.correspond('conn-log', ['VModel:AuditSM'], '', terms, lambda i: descs[i])
     ctx.cover(len(cases), nontriv, [{'key': cases[0]['key'], 'kex': cases[0]['kex'], 'gex_style': cases[0]['gex_style'], 'conns': results[0]['conns']}],
               'real CLI over TCP against scripted servers: random host-key lists (probe-table types, ok/close/garbage/stall replies), GEX styles (answer all / >=2048 / refuse / garbage / stall once / only 1024), with and without --skip-rate-test (rate connections answered by SSH banner); server-side log of every connection, its phase, messages and EOF; non-trivial = distinct (hostkey conns, gex conns, rate conns, gex style)')
